@@ -43,7 +43,7 @@ func (p Profile) norm() Profile {
 }
 
 var plainKeys = []string{"a", "b", "c", "id", "k"}
-var nastyKeys = []string{"", "a/b", "m~n", "\u00e9", "1", "01", "-", "+1", "~0", "a b", "/", "~", "0", "-1", "12345678901234567890", "\"q\"", " "}
+var nastyKeys = []string{"1e2", "1.5", "2.0", "0e0", ".5", "0x10", "inf", "NaN", "1_0", "", "a/b", "m~n", "\u00e9", "1", "01", "-", "+1", "~0", "a b", "/", "~", "0", "-1", "12345678901234567890", "\"q\"", " "}
 var plainStrings = []string{"", "a", "b", "1", "true"}
 
 // PayloadStrings are strings that stress text formats.
@@ -645,4 +645,41 @@ func KeyedPair(t *rapid.T, keys []string, p Profile) (V, V) {
 		av, bv = map[string]V{"x": map[string]V{"items": av}, "n": 1.0}, map[string]V{"x": map[string]V{"items": bv}, "n": 1.0}
 	}
 	return av, bv
+}
+
+// ---------------------------------------------------------------- deep nesting
+
+// DeepPair wraps a and b in the same chain of 1..6 objects; every level
+// gets 0..3 sibling keys that are equal, changed, removed or added between
+// the two sides. Paths of hunks then have up to 6 more leading keys, with
+// several hunks sharing a prefix at depth.
+func DeepPair(t *rapid.T, a, b V, p Profile) (V, V) {
+	if val.IsVoid(a) || val.IsVoid(b) {
+		return a, b
+	}
+	k := Int(t, "deepLevels", 1, 6)
+	for i := 0; i < k; i++ {
+		key := Pick(t, "deepKey", plainKeys)
+		oa := map[string]V{key: a}
+		ob := map[string]V{key: b}
+		nsib := Int(t, "nSiblings", 0, 3)
+		for j := 0; j < nsib; j++ {
+			sk := fmt.Sprintf("s%d", j)
+			va := Scalar(t, p)
+			switch Int(t, "siblingMode", 0, 4) {
+			case 0:
+				oa[sk], ob[sk] = va, val.Clone(va)
+			case 1, 2:
+				oa[sk] = va
+				nv := Scalar(t, p)
+				ob[sk] = nv
+			case 3:
+				oa[sk] = va
+			default:
+				ob[sk] = va
+			}
+		}
+		a, b = oa, ob
+	}
+	return a, b
 }
